@@ -252,8 +252,8 @@ func (m *monitor) witness(extra map[string]any) map[string]any {
 	m.mu.Lock()
 	tr := append([]string(nil), m.trace...)
 	m.mu.Unlock()
-	if len(tr) > 250 {
-		tr = tr[len(tr)-250:]
+	if len(tr) > 600 {
+		tr = tr[len(tr)-600:]
 	}
 	out := map[string]any{"plan": m.w.p, "trace_tail": tr}
 	for k, v := range extra {
@@ -524,6 +524,7 @@ func (m *monitor) vapiResult(nodeIdx int, what string, err error) {
 			m.noteLocked("vc node=%d %s: refused by the node (mismatching partial signed data)", nodeIdx, what)
 		case err == nil:
 			m.resignAccepted++ // nothing stored for the first submission (rejected or expired), or identical data
+			m.noteLocked("vc node=%d %s: accepted by the node", nodeIdx, what)
 		default:
 			m.resignOther++
 		}
@@ -532,6 +533,7 @@ func (m *monitor) vapiResult(nodeIdx int, what string, err error) {
 	}
 	if err == nil {
 		m.vcSubmitted++
+		m.noteLocked("vc node=%d %s: accepted", nodeIdx, what)
 		return
 	}
 	if m.w.stopped.Load() || m.w.ctx.Err() != nil {
